@@ -260,15 +260,42 @@ pub fn wellformed_resolved(u: &Unifiable) -> Result<(), String> {
     }
 }
 
-/// `solve_all` twin: the strings it returns.
-pub fn run_solve_all(w: &mut Worker, kb: &suiron::KnowledgeBase, query: &T) -> Result<Vec<String>, String> {
-    let _ = w.cap.take();
-    let q = Rc::new(make_query(query));
-    let sn = suiron::make_base_node(Rc::clone(&q), kb);
-    let r = catch_unwind(AssertUnwindSafe(|| suiron::solve_all(Rc::clone(&sn))));
-    dismantle(&sn);
-    let _ = w.cap.take();
-    r.map_err(panic_text)
+fn cpu_seconds() -> f64 {
+    let mut ts = libc::timespec { tv_sec: 0, tv_nsec: 0 };
+    unsafe {
+        libc::clock_gettime(libc::CLOCK_PROCESS_CPUTIME_ID, &mut ts);
+    }
+    ts.tv_sec as f64 + ts.tv_nsec as f64 * 1e-9
+}
+
+/// `solve_all` twin: the strings it returns.  `Ok(None)`: inconclusive - the call reported a
+/// timeout although this process used almost no CPU time during it (the machine is so loaded that
+/// a microsecond search was off the CPU for a second of wall time); retried, never judged.
+pub fn run_solve_all(w: &mut Worker, kb: &suiron::KnowledgeBase, query: &T) -> Result<Option<(Vec<String>, f64, f64)>, String> {
+    for _attempt in 0..4 {
+        let _ = w.cap.take();
+        let q = Rc::new(make_query(query));
+        let sn = suiron::make_base_node(Rc::clone(&q), kb);
+        let (c0, t0) = (cpu_seconds(), std::time::Instant::now());
+        let r = catch_unwind(AssertUnwindSafe(|| suiron::solve_all(Rc::clone(&sn))));
+        let (cpu, wall) = (cpu_seconds() - c0, t0.elapsed().as_secs_f64());
+        dismantle(&sn);
+        let _ = w.cap.take();
+        match r {
+            Ok(v) => {
+                let timed_out = v.last().map_or(false, |s| s.starts_with("Query timed out"));
+                if timed_out && wall >= 0.9 && cpu < 0.3 {
+                    w.count("solve_all.rerun_because_starved", 1);
+                    std::thread::sleep(std::time::Duration::from_millis(200));
+                    continue;
+                }
+                return Ok(Some((v, wall, cpu)));
+            }
+            Err(p) => return Err(panic_text(p)),
+        }
+    }
+    w.count("solve_all.inconclusive_starved", 1);
+    Ok(None)
 }
 
 /// `solve` twin: call it until "No more." (or the step cap), return the strings.
